@@ -6,7 +6,7 @@
 From Coq Require Import ZArith Reals Bool List.
 From Flocq Require Import Core BinarySingleNaN.
 From UomV Require Import Model.Tables Model.Conv Model.FloatM Model.Quantity Model.Storages Model.Run Proofs.FloatLemmas Proofs.ConvFloat
-  Proofs.Tree Proofs.PowR Proofs.ErrBound Proofs.SafeB.
+  Proofs.Tree Proofs.PowR Proofs.ErrBound Proofs.SafeB Proofs.ErrOffset.
 Import ListNotations.
 Open Scope Z_scope.
 
@@ -116,6 +116,41 @@ Theorem c03_get_relative_error :
     /\ Rabs (B2R (evalF prec emax Hprec Hmax t) - B2R v * factor_R prec emax lib (map ev U) d / B2R (ev coef))
        <= (H prec ^ ops prec emax t - 1) * Rabs (B2R v * factor_R prec emax lib (map ev U) d / B2R (ev coef)).
 Proof. intros lib U d coef v t St. exact (from_base_relerr prec emax Hprec Hmax lib (map ev U) d (ev coef) v St). Qed.
+
+(* units WITH an offset c: construction is (v + c) k / f within one more rounding ... *)
+Theorem c03_new_offset_relative_error :
+  forall lib (U : list fl) d (k c v : fl),
+    let s := fadd prec emax Hprec Hmax v c in
+    let t := to_base_tree prec emax Hprec Hmax lib U d k s in
+    is_finite v = true -> is_finite c = true -> normal prec emax (B2R v + B2R c) ->
+    Safe prec emax Hprec Hmax t ->
+    is_finite (to_base (CFfloat prec emax Hprec Hmax lib) U d k c v) = true
+    /\ Rabs (B2R (to_base (CFfloat prec emax Hprec Hmax lib) U d k c v) - (B2R v + B2R c) * B2R k / factor_R prec emax lib U d)
+       <= (H prec ^ S (ops prec emax t) - 1) * Rabs ((B2R v + B2R c) * B2R k / factor_R prec emax lib U d).
+Proof. intros lib U d k c v s t Fv Fc Nvc St. exact (to_base_offset_relerr prec emax Hprec Hmax lib U d k c v Fv Fc Nvc St). Qed.
+
+(* ... and read-back is X - c with X = v f / k, accurate to ulps at the larger of the result and the offset term *)
+Theorem c03_get_offset_error :
+  forall lib (U : list fl) d (k c v : fl),
+    let t := from_base_tree prec emax Hprec Hmax lib U d k v in
+    let X := B2R v * factor_R prec emax lib U d / B2R k in
+    is_finite c = true -> Safe prec emax Hprec Hmax t ->
+    normal prec emax (B2R (evalF prec emax Hprec Hmax t) - B2R c) ->
+    is_finite (from_base (CFfloat prec emax Hprec Hmax lib) U d k c v) = true
+    /\ Rabs (B2R (from_base (CFfloat prec emax Hprec Hmax lib) U d k c v) - (X - B2R c))
+       <= Tree.u prec * Rabs (X - B2R c) + (1 + Tree.u prec) * (H prec ^ ops prec emax t - 1) * Rabs X.
+Proof. intros lib U d k c v t X Fc St Ns. exact (from_base_offset_abserr prec emax Hprec Hmax lib U d k c v Fc St Ns). Qed.
+
+(* construct-then-read in one (offset-free) unit returns the input to the same accuracy *)
+Theorem c03_roundtrip_relative_error :
+  forall lib (U : list fl) d (k v : fl),
+    let t1 := to_base_tree prec emax Hprec Hmax lib U d k v in
+    let t2 := from_base_tree prec emax Hprec Hmax lib U d k (evalF prec emax Hprec Hmax t1) in
+    Safe prec emax Hprec Hmax t1 -> Safe prec emax Hprec Hmax t2 ->
+    from_base (CFfloat prec emax Hprec Hmax lib) U d k (B754_zero false) (to_base (CFfloat prec emax Hprec Hmax lib) U d k (B754_zero true) v)
+      = evalF prec emax Hprec Hmax t2
+    /\ Rabs (B2R (evalF prec emax Hprec Hmax t2) - B2R v) <= (H prec ^ (ops prec emax t1 + ops prec emax t2) - 1) * Rabs (B2R v).
+Proof. intros lib U d k v t1 t2 S1 S2. exact (roundtrip_relerr prec emax Hprec Hmax lib U d k v S1 S2). Qed.
 
 (* the integer power computed by the std build's loop is the real power x^e (so factor_R is prod U_i^d_i) *)
 Theorem c03_std_power_is_real_power :
